@@ -18,5 +18,12 @@ META = {
     ),
 }
 
+META["C05"] = dict(
+    text="Lean 4 theorems over a generic bincode-by-schema model and hand models of MessageCodec, Frame::try_from, FramedRead and the batch format: c05_roundtrip (decode(encode f ++ rest) = (f, rest), 8-byte BE length prefix, 9+len bytes), c05_encode_limit, c05_decode_limit (refused with only the 9 header bytes present), c05_incomplete_waits, c05_chunking_any_bytes (for ALL byte strings and ALL chunkings FramedRead yields what it yields on the whole string), c05_chunking, c05_truncated, c05_batch_roundtrip, c05_tags_injective; tags/schemas/constants are regenerated from the source each run and the obligations re-proved; control flow is tied to the code by driving the real codec, a real FramedRead and the compiled model on the same inputs",
+    design_ref="DESIGN.md section 6, C05",
+    note="trusts the Lean kernel (+propext, Classical.choice, Quot.sound), the stated bincode/serde/tokio-util contracts, the syn translator and the correspondence harness",
+    technique="Lean 4 proof (generic schema round trip + prefix-stability of decode) + regenerated tables + differential correspondence",
+)
+
 _PENDING = "not built yet in this session; planned at proof level (DESIGN.md section 6) — will be claimed as soon as its first theorem and correspondence suite exist"
 NOT_APPLICABLE = {f"C{n:02d}": _PENDING for n in range(1, 18)}
